@@ -33,6 +33,22 @@ claim("C09", "5/C09", "TLA+ registry state machine (StrTypes) model-checked with
       "Detection order, covering of resolve() and disabled types are TLC invariants of the registry state machine; the real registry is driven through every enumerated operation sequence and the real parsers over the enumerated grammar; TLC checks first-match / covering / round-trip clauses on the logged tables. The round-trip clause is an equality of two logged values (model contributes only the grammar and protocol).",
       INFER_NOTE)
 
+MOD_NOTE = ("Trusted: TLC 1.8.0 + CommunityModules; harness/loadmod.py (exec of the emitted text, framework introspection, projection of typing objects "
+            "to annotation terms); CPython 3.12 / typing / pydantic.v1 / attrs / dataclasses as ground truth for loads/parses/constructs; a stub sqlmodel package; "
+            "prepare_label results enter as a logged label table (its injectivity/recoverability is C11). Inputs: seeded generators listed in evidence.coverage.rule.")
+claim("C03", "5/C03", "TLA+ loader model (Render.tla: class-body name lookup, NoShadow, UniqueInScope) evaluated by TLC on the projected emitted module, with the real interpreter (ast.parse, exec, get_type_hints) as ground truth",
+      "Every emitted module of the explored inputs is parsed, executed and its hints resolved; TLC evaluates identifier, uniqueness, shadowing and one-class-per-model predicates on the projected module. Nested layout is judged only on tree-shaped graphs, as the statement says.", MOD_NOTE)
+claim("C04", "5/C04", "independent rendering of the model graph in TLA+ (Render!Ann, RenderModel, CanonA = typing normal form) compared by TLC with the introspected classes of the executed module",
+      "TLC computes, from the logged model graph and options, the class table the inferred graph denotes (python name, JSON key, canonical annotation, default kind) and compares it field by field with what pydantic/attrs/dataclasses/typing report for the executed module.", MOD_NOTE)
+claim("C10", "5/C10", "TLA+ literal rule (LitMay / must / exact-set per list-depth position) evaluated by TLC on samples + evaluated annotations of the loaded module",
+      "For every string position TLC derives the plain strings observed from the samples and the Literal sets found at that depth of the evaluated annotation, and checks may/must/exact-set/none clauses; driver covers counts 0..17, lengths around 20, max 0..16, all frameworks, quote/backslash/newline/comma/non-BMP content.", MOD_NOTE)
+claim("C11", "5/C11", "TLA+ predicates Injective / Recoverable / class-name clauses with the domain predicate InDomain in the spec; evaluated by TLC on loaded field tables",
+      "Per emitted class TLC checks that distinct keys gave distinct fields and that the recovered JSON keys (pydantic alias / original-name metadata) are exactly the model's keys, for key sets over a wide alphabet; out-of-domain key sets are evaluated under separate clause names and matched against known_findings.json.", MOD_NOTE)
+claim("C12", "5/C12", "flat and nested renderings of the same input loaded and compared by TLC (ClassTable equality, once, root-first, placement under the referrer)",
+      "Each tree-shaped input is rendered in both layouts; TLC checks each model emitted exactly once per layout, root first in flat, every nested class placed inside a class that references it, and equal class tables (fields, canonical annotations, defaults).", MOD_NOTE)
+claim("C18", "5/C18", "TLA+ converter-path semantics (HasPath, ExpectedP) evaluated by TLC against instances constructed from the samples",
+      "Generated attrs/dataclass classes are instantiated from each sample; TLC computes from the inferred field type which leaves must be converted (single pseudo-typed leaf under Optional/List/Dict) and compares the instance's projected values with the expected ones (converted via the logged parse table, None kept, others untouched).", MOD_NOTE)
+
 checks = []
 for pid, (ref, tech, text, note) in sorted(CLAIMS.items()):
     checks.append({
